@@ -48,6 +48,113 @@ def carriers(c):
     return out
 
 
+def _presence_atoms(D, cond, pol):
+    """a path condition as a formula over atoms `descriptor is Some`: ("atom", d) | ("and"/"or", [..]) | ("not", f) | ("free", text) | ("true",)"""
+    k = cond.get("k")
+    if k == "letexpr":
+        return _pat_formula(D, cond["init"], cond["pat"], pol)
+    if k == "armpat":
+        return _pat_formula(D, cond["scrut"], cond["pat"], pol)
+    if k == "mcall" and cond["name"] in ("is_some", "is_none") and not cond["args"]:
+        f = ("atom", D.of(cond["recv"]))
+        if cond["name"] == "is_none":
+            f = ("not", f)
+        return f if pol else ("not", f)
+    f = ("free", show(cond)[:80])
+    return f if pol else ("not", f)
+
+
+def _pat_formula(D, scrut, pat, pol):
+    def one(e, p):
+        while p.get("k") in ("pref", "pderef"):
+            p = p["pat"]
+        if p.get("k") in ("pwild", "pbind") and "sub" not in p:
+            return ("true",)
+        if p.get("k") == "pvariant" and p["path"].endswith("Option::Some"):
+            return ("atom", D.of(e))
+        if p.get("k") in ("pvariant", "pconst", "ppath") and p.get("path", "").endswith("Option::None"):
+            return ("not", ("atom", D.of(e)))
+        if p.get("k") == "ptuple" and peel(e).get("k") == "tuple" and len(p["subs"]) == len(peel(e)["es"]):
+            return ("and", [one(x, q) for x, q in zip(peel(e)["es"], p["subs"])])
+        if p.get("k") == "por":
+            return ("or", [one(e, q) for q in p["alts"]])
+        return ("free", "%s matches %s" % (show(e)[:40], show_pat(p)[:40]))
+    f = one(scrut, pat)
+    return f if pol else ("not", f)
+
+
+def _eval_formula(f, env):
+    t = f[0]
+    if t == "true":
+        return True
+    if t in ("atom", "free"):
+        return env[f]
+    if t == "not":
+        return not _eval_formula(f[1], env)
+    if t == "and":
+        return all(_eval_formula(x, env) for x in f[1])
+    if t == "or":
+        return any(_eval_formula(x, env) for x in f[1])
+    raise ValueError(t)
+
+
+def _atoms(f, out):
+    if f[0] in ("atom", "free"):
+        out.add(f)
+    elif f[0] == "not":
+        _atoms(f[1], out)
+    elif f[0] in ("and", "or"):
+        for x in f[1]:
+            _atoms(x, out)
+
+
+def yields_iff_present(ctx, g, gix):
+    import itertools
+    D = iterdesc.Desc(gix, local_defs(g))
+    sites = {}
+    for n in gix.nodes:
+        if n.get("k") == "mcall" and n["name"] == "push" and len(n["args"]) == 1 and "ExprRef" in (n["args"][0].get("ty") or ""):
+            d = D.of(n["args"][0])
+            if d[0] == "?":
+                continue
+            conds = norm.path_conditions(gix, n, arms=True)
+            f = ("and", [_presence_atoms(D, c_, pol) for c_, pol in conds])
+            sites.setdefault(d, []).append((f, n))
+    for d, fs in sorted(sites.items(), key=lambda x: str(x[0])):
+        want = ("atom", d[1]) if d[0] == "payload" else ("true",)
+        yielded = ("or", [f for f, _ in fs])
+        atoms = set()
+        _atoms(yielded, atoms)
+        _atoms(want, atoms)
+        atoms = sorted(atoms, key=str)
+        bad = None
+        if len(atoms) <= 10:
+            for vals in itertools.product((False, True), repeat=len(atoms)):
+                env = dict(zip(atoms, vals))
+                if _eval_formula(yielded, env) != _eval_formula(want, env):
+                    bad = ", ".join("%s=%s" % (_fmt_atom(a_), v) for a_, v in env.items())
+                    break
+        name = _fmt_desc(d)
+        ctx.inst("R11.1", "get_all_exprs:yields-%s-iff-present" % name, bad is None, fs[0][1].get("sp"),
+                 "get_all_exprs yields %s under a condition that is not just its own presence (e.g. when %s): an expression that is skipped is never transformed and update_expressions then erases or keeps a stale reference" % (name, bad),
+                 sample={"field": name, "sites": len(fs)})
+    ctx.floor("R11.1", "element-wise yields of get_all_exprs with a presence condition", len(sites), 3)
+
+
+def _fmt_desc(d):
+    if d[0] == "payload":
+        return _fmt_desc(d[1])
+    if d[0] == "field":
+        return "%s.%s" % (_fmt_desc(d[1]), d[2])
+    if d[0] == "elem":
+        return d[1].replace("self.", "") + "[*]"
+    return str(d)
+
+
+def _fmt_atom(a_):
+    return ("present(%s)" % _fmt_desc(a_[1])) if a_[0] == "atom" else a_[1]
+
+
 def run(ctx):
     ctx.rule("R11.1", "every ExprRef-carrying field reachable from TransitionSystem (computed from the type definitions) is read by get_all_exprs and re-pointed by update_expressions from update(its own old value), falling back to its own old value")
     ctx.rule("R11.2", "do_transform passes the unmodified result of get_all_exprs and its mode parameter to do_transform_expr, and the lookup closure uses get_fixed_point exactly under FixedPoint on the same result map")
@@ -83,13 +190,9 @@ def run(ctx):
     for key in car:
         ok = (key in read) if key[1] else ((key[0], None) in read)
         ctx.inst("R11.1", "get_all_exprs:%s" % fmt(key), ok, g["span"], "get_all_exprs does not read %s: expressions reachable only from it are never transformed" % fmt(key), sample=fmt(key))
-    # conditional pushes in get_all_exprs only for Option fields
+    # an element-wise yield (`out.push(x)`) happens exactly when the yielded field is present: the only condition is the Option elimination of that field itself
     gix = Index(g["body"])
-    for n in gix.nodes:
-        if n.get("k") == "if":
-            c_ = peel(n["cond"])
-            ok = c_.get("k") == "letexpr" and c_["pat"].get("k") == "pvariant" and c_["pat"]["path"].endswith("Option::Some") and "else" not in n
-            ctx.inst("R11.1", "get_all_exprs:conditional", ok, n["sp"], "get_all_exprs skips expressions under a condition other than `if let Some(..)`: %s" % show(n["cond"]))
+    yields_iff_present(ctx, g, gix)
     # update_expressions ---------------------------------------------------------------------------------
     u = ctx.fn("patronus", TS + "::update_expressions")
     uix = Index(u["body"])
